@@ -86,9 +86,11 @@
 #define SPX_PDF_T(s1, sa1, dc, da) \
   ((255 - SP_I (sa1)) * SP_I (dc) + (255 - SP_I (da)) * SP_I (s1) + SPX_BLEND (SP_I (dc), SP_I (da), SP_I (s1), SP_I (sa1)))
 #define SPX_PDF_TA(sa1, da) (255 * SP_I (da) + 255 * SP_I (sa1) - SP_I (sa1) * SP_I (da))
-/* r == round-half-up(clamp(T,0,255^2)/255), T mentioned once per comparison */
-#define SPX_ROUNDS(r, T) \
-  ((T) < 0 ? (r) == 0u : (T) > 65025 ? (r) == 255u : (510 * SP_I (r) <= 2 * (T) + 255 && 2 * (T) + 255 < 510 * SP_I (r) + 510))
+/* r == round-half-up(clamp(T,0,255^2)/255).  SP_RND255 is the functional form of that
+ * rounding; lemma "lemma.SP_RND255_is_round_to_nearest" (harness/C01/lemmas.c) discharges
+ * 510*q <= 2t+255 < 510*q+510 for every t in [0,255^2].  (Stating the relation directly in
+ * each postcondition made the PDF queries 10x slower.) */
+#define SPX_ROUNDS(r, T) (SP_I (r) == SP_RND255 (SP_CLAMP2 (T)))
 #define SPX_PRE(s, d) (SP_PREMUL (s) && SP_PREMUL (d))
 #define SPX_POST(r, s, m, d, c) \
   ((c) == 3 ? SPX_ROUNDS (SP_CH (r, 3), SPX_PDF_TA (SP_MA (SP_A (s), SPX_MC (m, 3)), SP_A (d))) \
